@@ -427,8 +427,24 @@ func (rm *room) propose(i int, actor user, before map[ref.Key]string) (typ strin
 	}
 	if t.Chance(40) {
 		choice = 10 // also by users who are not in the room: a server publishes its aliases
+	} else if mem == "join" && t.Chance(40) {
+		choice = 11
 	}
 	switch choice {
+	case 11: // state of an auth-relevant TYPE under a state key the rules never read: unrelated state
+		sk = world.Str(sim.Pick(t, []string{"archive", actor.id, "0"}))
+		if t.Bool() {
+			typ = spec.MRoomJoinRules
+			content = map[string]any{"join_rule": sim.Pick(t, []string{"public", "invite", "knock"})}
+		} else {
+			typ = spec.MRoomPowerLevels
+			cur := rm.currentPL(before)
+			if cur == nil {
+				cur = rm.defaultPL(rm.users[0])
+			}
+			content = cur // the room's levels, restated under another key: changes nothing
+		}
+		r.Probe("auth_type_under_unread_state_key")
 	case 10: // m.room.aliases under the sender's server name (the sender key in pseudo-ID rooms): judged by a rule of its own, on the create event alone
 		name := string(actor.srv.Name)
 		if pseudoDir != nil {
@@ -790,7 +806,7 @@ func TestEngine(t *testing.T) {
 		Name: "roomsim",
 		Body: body,
 		Rule: func(p string) string {
-			return "one run = one room (version drawn from the whole registry, weighted towards the v1, v2 and v2.1 algorithms; in the pseudo-ID version users are known by per-room keys and a directory maps them back) with 2-5 users on 2-3 servers; 6-28 events by honest and Byzantine users (self/other membership, power levels, join rules, topic/name/custom state, messages), each built with the real EventBuilder.AddAuthEvents/Build on 1-3 tape-chosen prev events (forks = what partitions and delays produce) with tape-chosen, colliding and skewed timestamps; every merge and 1-3 explicit tip sets are state-resolution points: library vs reference resolver (C10), 2-5 re-invocations with permuted / duplicated inputs, another map-order salt and the other entry points (C11), every auth verdict through the C08 non-escalation monitor and the C09 stateless-model checks; non-trivial = at least one resolution of >=2 distinct state sets; distinct = distinct event-log hash"
+			return "one run = one room (version drawn from the whole registry, weighted towards the v1, v2 and v2.1 algorithms; in the pseudo-ID version users are known by per-room keys and a directory maps them back) with 2-5 users on 2-3 servers; 6-28 events by honest and Byzantine users (self/other membership, power levels, join rules - one in eight with a content the rules cannot read -, topic/name/custom state, m.room.aliases under the sender's server name or another, power-levels / join-rules events under a state key the rules never read, third-party invites, messages), each built with the real EventBuilder.AddAuthEvents/Build on 1-3 tape-chosen prev events (forks = what partitions and delays produce) with tape-chosen, colliding and skewed timestamps; every merge and 1-3 explicit tip sets are state-resolution points: library vs reference resolver (C10), 2-5 re-invocations with permuted / duplicated inputs, another map-order salt and the other entry points (C11), every auth verdict through the C08 non-escalation monitor and the C09 stateless-model checks; non-trivial = at least one resolution of >=2 distinct state sets; distinct = distinct event-log hash"
 		},
 		Real: []string{"EventBuilder.AddAuthEvents/Build", "Allowed", "ResolveConflictsNew", "ResolveStateConflictsV2New", "ResolveConflicts (deprecated)", "ResolveStateConflicts (v1)", "ReverseTopologicalOrdering", "LineariseStateResponse", "allowerContext (via build-tagged overlay)"},
 		Stub: []string{"servers' event stores and arrival orders (DAG generator + input permutations)", "map iteration order (verifrt salt)", "clock (tape-chosen origin_server_ts)", "reference resolver harness/ref/stateres.go (oracle)"},
